@@ -7,6 +7,9 @@ CONSTANTS
   MaxT = 1
   Phases <- encrypt_q_Phases
   ShapeSet <- encrypt_q_Shapes
+  Signers = {"s1", "s2"}
+  Recipients = {"r1", "r2"}
+  Policies <- encrypt_q_Policies
   CfgName = "encrypt_q"
 INIT Init
 NEXT Next
